@@ -19,6 +19,7 @@ class Prop:
     assumptions = []
     rule = ""
     judge_timeout = 3000
+    isolate = False
     engine = "E0"
     design_ref = "DESIGN.md section 6"
     technique = "TLA+ specification model-checked with TLC + TLC trace validation of executions of the real code"
@@ -96,7 +97,7 @@ def run_check(prop, tier, replay=None):
             cases = prop.cases(tier, rng)
         for n, c in enumerate(cases):
             c.setdefault("id", n + 1)
-        results = core.run_cases(type(prop).runner, cases, timeout=prop.timeout)
+        results = core.run_cases(type(prop).runner, cases, timeout=prop.timeout, isolate=prop.isolate)
         recs = prop.records(cases, results)
         mod, cfg = prop.trace
         fails, tstats = core.judge(mod, cfg, recs, timeout=prop.judge_timeout, group_key=prop.group_key)
